@@ -87,7 +87,7 @@ package influxql
 //@   modifies @ast
 //@   frameprops C14 C17
 //@   requires cond != nil ==> notnil(cond) && (spec_isExprNode(cond) || istype(cond, *NilLiteral))
-//@   ensures [C10] @range result1 == local(tr) && result2 == local(err)
+//@   ensures [C10] @range result1 == callres("conditionExpr", 1) && result2 == callres("conditionExpr", 2)
 //@   ensures [C10] @truemeansnone (istype(result0, *BooleanLiteral)) ==> !result0.(*BooleanLiteral).Val
 
 // open ends read as the extreme representable times
